@@ -83,7 +83,7 @@ static void child_run(const Plan& p, const std::string& root) {
         // resolve symbolic descriptor references
         auto live_files = [&]() { std::vector<int64_t> v; for (size_t k = 3; k < ctx.tab.size(); k++) if (ctx.tab[k].live && !ctx.tab[k].preopen && !ctx.tab[k].dir) v.push_back((int64_t)k); return v; };
         auto live_dirs = [&]() { std::vector<int64_t> v; for (size_t k = 3; k < ctx.tab.size(); k++) if (ctx.tab[k].live && (ctx.tab[k].preopen || ctx.tab[k].dir)) v.push_back((int64_t)k); return v; };
-        auto closed = [&]() { std::vector<int64_t> v; for (size_t k = 3; k < ctx.tab.size(); k++) if (!ctx.tab[k].live) v.push_back((int64_t)k); return v; };
+        auto closed = [&]() { std::vector<int64_t> v; for (size_t k = 0; k < ctx.tab.size(); k++) if (!ctx.tab[k].live) v.push_back((int64_t)k); return v; };      // includes closed standard streams
         bool skip = false;
         for (const char* key : {"fd", "dirfd", "dirfd2"}) {
             std::string k = key;
@@ -191,7 +191,7 @@ static void gen_c13(Plan& p, Rng& r) {
             p.ops.push_back(o);
         } else if (k < 52) {
             Op o = mkop("fd_close", r); uint32_t c = r.below(10);
-            if (c < 5) o.n["fd_live"] = r.below(8); else if (c < 6) o.n["fd_dir"] = r.below(6); else if (c < 8) o.n["fd_closed"] = r.below(4); else if (c < 9) o.n["fd_never"] = r.below(3); else o.n["fd"] = (int64_t)(r.below(2) ? 0xFFFFFFFFll : 0x80000000ll);
+            if (c < 5) o.n["fd_live"] = r.below(8); else if (c < 6) o.n["fd_dir"] = r.below(6); else if (c < 8) o.n["fd_closed"] = r.below(4); else if (c < 9) o.n["fd_never"] = r.below(3); else o.n["fd"] = r.below(2) ? (int64_t)r.below(2) /* a standard stream (0 or 1; 2 carries the sanitizer's reports) */ : (int64_t)(r.below(2) ? 0xFFFFFFFFll : 0x80000000ll);
             if (faults && c < 6 && r.below(3) == 0) { o.fault = "close_fail"; o.fault_nth = 1; o.fault_param = r.below(2) ? EINTR : EIO; }
             p.ops.push_back(o);
         } else if (k < 70) {
